@@ -43,7 +43,8 @@ VERSIONS = [None, None, None, 1, 2, 5, 10, 27, 40, 41, 100, 0, -1, 'M1', 'm2', '
 ERRORS = [None, None, 'L', 'M', 'Q', 'H', 'l', 'h', 'x', '', '-', 'LL']
 MODES = [None, None, None, 'numeric', 'alphanumeric', 'byte', 'kanji', 'hanzi', 'NUMERIC', 'Byte', 'foo', '']
 MASKS = [None, None, None, -1, 0, 1, 3, 4, 7, 8, 9, '0', '7', '8', 'x', '']
-ENCODINGS = [None, None, None, None, 'utf-8', 'latin1', 'shift_jis', 'ascii', 'utf-16', 'cp1252', 'big5', 'gb2312', 'no-such-codec', '']
+ENCODINGS = [None, None, None, None, None, None, 'utf-8', 'latin1', 'shift_jis', 'ascii', 'utf-16', 'cp1252', 'big5', 'gb2312', 'no-such-codec', '',
+             'UTF8', 'latin_1', 'iso8859-15', 'cp437', 'koi8-r', 'euc-jp', 'utf-32', 'ISO-8859-1', 'Shift_JIS']
 SYMCOUNTS = [None, -1, 0, 1, 2, 3, 16, 17, 100]
 
 
